@@ -255,6 +255,7 @@ func TestC10Idle(t *testing.T) {
 				for oi := range d.Files[fi].Objs {
 					if d.Files[fi].Objs[oi].Kind == "Widget" {
 						d.Files[fi].Objs[oi].CondMap = true
+						d.Files[fi].Objs[oi].CondMap2 = rapid.Bool().Draw(rt, "condmap2")
 						have = true
 					}
 				}
